@@ -459,7 +459,14 @@ func runSeq(c *c19Case, obs *c19Obs) {
 			_ = keepAlive.IsValid()
 			select {
 			case <-p.done:
-				logEv(c19Event{E: "L", C: k, R: p.res, T0: p.t0, T1: p.t1})
+				if p.res == "E" {
+					// {} only comes out of the time-out branch: the poll had registered and waited, the script
+					// thread was merely too slow to see it
+					logEv(c19Event{E: "L", C: k, R: "W", T0: p.t0, T1: p.t0})
+					logEv(c19Event{E: "T", C: k, R: "E", T0: p.t0, T1: p.t1})
+				} else {
+					logEv(c19Event{E: "L", C: k, R: p.res, T0: p.t0, T1: p.t1})
+				}
 			default:
 				if !registered {
 					obs.Err = "a poll neither returned nor registered its responder"
